@@ -61,7 +61,7 @@ CHECKS = {
         "pin pre-filter may answer Some(true) only when not in check, mover unpinned/non-king and not en passant, and never decides on "
         "another path; Checker::is_legal evaluates the five-term reference attack test on the post-move occupancy with every captured man "
         "masked out, for the king-move, en-passant and general paths; Move::validate is semi_validate plus the same checker. This decides "
-        "the structure of the legality filter and the agreement of the three legality routes, not the exactness of the semilegal move set. ADDED: the semilegal generator is read as set algebra over the bitboards it iterates (rules/emitrules.py) and must emit S->D of each (kind, piece) exactly when the reference rules allow it, for all 64x64 pairs on abstract boards, both colours (sliding lookups as proved in C15; castling by the condition-set rule) - with the filter rules this ties legal generation to the rules; the legality checker's set arguments are compared as boolean functions.",
+        "the structure of the legality filter and the agreement of the three legality routes, and, ADDED: the semilegal generator is read as set algebra over the bitboards it iterates (rules/emitrules.py) and must emit S->D of each (kind, piece) exactly when the reference rules allow it, for all 64x64 pairs on abstract boards, both colours (sliding lookups as proved in C15; castling by the condition-set rule) - with the filter rules this ties legal generation to the rules; the legality checker's set arguments are compared as boolean functions.",
    note=TB + "Tied to the single-blocker pin architecture of legal.rs: a different legality design needs new rules (stated in DESIGN.md)."),
  "C07": dict(cat="other", ref="DESIGN.md §3 C07",
    technique="decision-tree extraction and exhaustive evaluation on abstract inputs; emitter-set comparison over the resolved call graph",
@@ -82,8 +82,7 @@ CHECKS = {
    text="Static: Move::is_well_formed is folded per (kind, cell) and its residual tree evaluated on all 4096 (src,dst) pairs: it must equal "
         "the geometric-possibility predicate written from the rules (532,480 tuples, exhaustive); each generator family reaches exactly "
         "the emitters of its documented class and the classes partition; all add_move sites pass matches_piece-accepted constants; castling "
-        "conditions of generator and validator are the same four; Move is constructible only through gated constructors. Does not decide "
-        "generator<=>validator equivalence for non-castling moves nor that the emitted bitboard arithmetic is the chess move set. ADDED: the semilegal generator is read as set algebra over the bitboards it iterates (rules/emitrules.py) and must emit S->D of each (kind, piece) exactly when the reference rules allow it, for all 64x64 pairs on abstract boards, both colours (sliding lookups as proved in C15; castling by the condition-set rule); the validator do_is_move_semilegal is evaluated on abstract boards for every well-formed tuple and must accept exactly under the chess conditions. Generator, validator and well-formedness are thereby each compared with one reference.",
+        "conditions of generator and validator are the same four; Move is constructible only through gated constructors. ADDED: the semilegal generator is read as set algebra over the bitboards it iterates (rules/emitrules.py) and must emit S->D of each (kind, piece) exactly when the reference rules allow it, for all 64x64 pairs on abstract boards, both colours (sliding lookups as proved in C15; castling by the condition-set rule); the validator do_is_move_semilegal is evaluated on abstract boards for every well-formed tuple and must accept exactly under the chess conditions. Generator, validator and well-formedness are thereby each compared with one reference.",
    note=TB + "matches_piece/from_castling/allowed_mask are tabulated by constant folding."),
  "C11": dict(cat="other", ref="DESIGN.md §3 C11",
    technique="abstract-point evaluation of the validation decision tree (972 points); condition-set extraction for the normalising writes",
